@@ -264,6 +264,47 @@ def run(ctx):
         key = f"history:{common.oid_of('C14', dict(tmc=t, ncalls=n, plan=p))}:{clause}"
         ctx.violation(key, f"{clause} in recorded run {desc}", dict(kind="C14", job=[tid, t, n, p], clause=clause))
     ctx.cov["distinct_digests"] = len(dig)
+    selftest(ctx, [t for t in traces if t[0]["tid"] not in bad], hdr, len(dig))
+
+
+def selftest(ctx, good, hdr, ndig):
+    """Binding self-test: accepted recorded runs are replayed to the trace specification with ONE recorded field corrupted
+    (an element digest, a slot digest, a missing slot, a crash marker); each corrupted copy must be rejected."""
+    import copy
+
+    base = next((t for t in good if sum(1 for e in t if e["ev"] == "Elem") >= 2 and any(e["ev"] == "CallEnd" for e in t)), None)
+    if base is None:
+        return
+    def corrupt(tid, fn):
+        t = copy.deepcopy(base)
+        for e in t:
+            e["tid"] = tid
+        return fn(t)
+    def elem_digest(t):
+        next(e for e in t if e["ev"] == "Elem")["digest"] = ndig + 7
+        return t
+    def slot_digest(t):
+        e = next(e for e in t if e["ev"] == "CallEnd")
+        e["slots"][0][0] = ndig + 8
+        return t
+    def slot_missing(t):
+        e = next(e for e in t if e["ev"] == "CallEnd")
+        e["slots"][0] = e["slots"][0][:-1]
+        return t
+    def crash(t):
+        i = next(i for i, e in enumerate(t) if e["ev"] == "CallEnd")
+        return t[:i] + [dict(tid=t[0]["tid"], ev="Crash", etype="KeyError", msg="x")]
+    cases = [("elem_digest", elem_digest, "result_depends_on_history"), ("slot_digest", slot_digest, "result_depends_on_history"),
+             ("slot_missing", slot_missing, "slot_count_differs"), ("crash", crash, "crash_KeyError")]
+    muts = [corrupt(900001 + i, fn) for i, (_n, fn, _c) in enumerate(cases)]
+    saved = {k: copy.deepcopy(ctx.cov.get(k)) for k in ("conformance_notes", "conformance_note_samples", "runs_followed_by_spec_to_the_end",
+                                                        "traces_validated_against_impl", "tlc_runs")}
+    bad = validate(ctx, [base] + muts, hdr, "selftest")
+    ctx.cov.update(saved)
+    wrong = [n for i, (n, _f, c) in enumerate(cases) if bad.get(900001 + i) != c]
+    ctx.cov["binding_selftest"] = dict(corrupted_runs=len(cases), rejected=len(cases) - len(wrong), fields=[n for n, _f, _c in cases])
+    if wrong or base[0]["tid"] in bad:
+        raise common.MachineryError(f"binding self-test: Trace_C14 verdicts {bad} for corruptions {[n for n, _f, _c in cases]}")
 
 
 def replay(ctx, obj):
